@@ -300,7 +300,9 @@ def model_inputs(world, conds, timeout_ms=800, extra=None, nmodels=1):
 
     outs = []
     s = z3.SolverFor("QF_AUFBV")
-    s.set("timeout", timeout_ms)
+    # resource limit rather than wall-clock: which inputs get proposed must not depend on load
+    s.set("rlimit", 4000 * timeout_ms)
+    s.set("timeout", 20 * timeout_ms)
     seen = set()
     sha_apps = []
     for c in list(conds) + list(extra or []):
